@@ -5,9 +5,9 @@ CONSTANTS
   Catalog <- Cat6
   Comp <- NoComp
   UseComp = FALSE
-  MaxRx = 2
+  MaxRx = 1
   AllowDup = FALSE
-  Modes <- Modes_One
+  Modes <- Modes_Pair
   MaxSys = 2
   MaxOps = 0
   Preds <- Preds_None
